@@ -287,6 +287,42 @@ def r_wrap(P, chk):
                               "(parse missing or conditional): the tree was mutated by the previous export, so repeated conversions on "
                               "one engine and the other entry points no longer agree" % g.name)
     chk.floor(rid, n_exp, 2, "callers of mmd_engine_export_token_tree")
+    # ... and the parse entry points really parse: with a non-NULL engine no path skips the reset, the tokenizer or the
+    # block parser (an "already parsed" shortcut re-exports the tree the previous export mutated)
+    from .prog import edpe_blocks as _edpe
+    must = {"mmd_engine_parse_string": ["mmd_engine_parse_substring"],
+            "mmd_engine_parse_substring": ["mmd_engine_reset", "mmd_tokenize_string", "mmd_parse_token_chain"]}
+    for fn, callees in must.items():
+        g = P.func(fn, "mmd.c")
+        if g is None:
+            raise AnalysisBroken("%s is gone" % fn)
+        ep = g.params[0][0]
+
+        def nonnull(t, ep=ep):
+            t = strip(t)
+            if t is None:
+                return None
+            if t["k"] == "DeclRefExpr" and t["n"] == ep:
+                return True
+            if t["k"] == "UnaryOperator" and t["op"] == "!":
+                r = nonnull(t["c"][0])
+                return None if r is None else not r
+            if t["k"] == "BinaryOperator" and t["op"] in ("==", "!="):
+                for p_, q_ in ((t["c"][0], t["c"][1]), (t["c"][1], t["c"][0])):
+                    sp = strip(p_)
+                    if sp is not None and sp["k"] == "DeclRefExpr" and sp["n"] == ep and const_value(q_) == 0:
+                        return t["op"] == "!="
+            return None
+        pos = g.cfg.positions()
+        for cal in callees:
+            cs = [c for c in g.calls(cal) if c["i"] in pos]
+            blocked = {pos[c["i"]][0] for c in cs}
+            reach = _edpe(g, "?none", 0, extra_decide=nonnull, blocked=blocked)
+            ok = bool(cs) and g.cfg.exit not in (reach - blocked)
+            chk.obligation(rid, "W6 %s: every path with a non-NULL engine passes through %s" % (fn, cal), ok)
+            if not ok:
+                chk.violation(rid, "W6:skip:%s:%s" % (fn, cal), g.where(), "%s can return without calling %s although the engine is not "
+                              "NULL: a conversion may then export a tree that an earlier export already modified" % (fn, cal))
     # W5 CLI
     main = P.func("main", "main.c")
     # POSIX dirname() may truncate its argument in place: the output file name must be derived before it
